@@ -1,4 +1,4 @@
-CONSTANTS MaxLive = 2  Configs = {<<6,2>>, <<7,3>>}
+CONSTANTS MaxLive = 2  Configs = {62, 73}
 SPECIFICATION Spec
 INVARIANTS TypeOK InStorage NoOverlap IntactInv DistinctIds EmptyRoom
 PROPERTIES Fifo
